@@ -14,7 +14,8 @@ RULE = ("Pairs of generated C/C++ libraries (P, P') where P' differs from P by 1
         "library; `abidw --type-id-style hash` on each. Oracle: every named type (element kind + name: class/struct, union, "
         "enum, typedef, builtin type-decl) that occurs exactly once in two documents has the same id in both, unless one of "
         "the documents shows evidence of collision probing for that id (the id minus one, or plus one, is also defined "
-        "there: the writer resolves a collision by incrementing). Ids must also be 8 hexadecimal digits. Non-trivial = at "
+        "there: the writer resolves a collision by incrementing); a struct that one library defines and the other only declares "
+        "counts as the same type. Ids must also be 8 hexadecimal digits. Non-trivial = at "
         "least 3 shared named types and each document has a named type the other lacks; distinct by SHA-1 of the case.")
 ASSUMPTIONS = ["a type's 'internal name' is determined by its kind and qualified name for named types"]
 TAGS = ("class-decl", "union-decl", "enum-decl", "typedef-decl", "type-decl")
@@ -41,6 +42,19 @@ def strategy_(draw, tier):
             if mm["lang"] == "cxx":
                 f["extern_c"] = False
             mm["funcs"].append(f)
+    # a struct that one library defines and the other only declares (and uses through a pointer): the same internal name,
+    # once with and once without a definition
+    if draw(st.integers(0, 2)) == 0:
+        full, decl_only = ("model", "mutant") if draw(st.booleans()) else ("mutant", "model")
+        c[full]["types"].append({"kind": "struct", "name": "shr0", "members": [{"name": "x", "type": ["b", "int"], "bits": None},
+                                                                               {"name": "y", "type": ["p", ["b", "char"]], "bits": None}]})
+        c[decl_only]["types"].append({"kind": "opaque", "name": "shr0"})
+        for key in ("model", "mutant"):
+            f = {"name": "use_shr0", "ret": ["b", "int"], "params": [{"name": "p", "type": ["p", ["n", "shr0"]]}], "variadic": False,
+                 "tu": 0, "body": 1}
+            if c[key]["lang"] == "cxx":
+                f["extern_c"] = False
+            c[key]["funcs"].append(f)
     return c
 
 
@@ -55,7 +69,9 @@ def named_ids(doc):
             n = el.attrib.get("name")
             if not n or "id" not in el.attrib or n.startswith("__anonymous_") or el.attrib.get("is-anonymous") == "yes":
                 continue
-            key = (tag, n, el.attrib.get("is-struct", ""), el.attrib.get("is-declaration-only", ""))
+            # a declaration-only class and its definition have the same internal name ("class X"; the internal representation
+            # does not distinguish struct from class either)
+            key = (tag, n)
             out[key].append(el.attrib["id"])
     return out
 
